@@ -28,7 +28,9 @@ def run(run, replay=None):
     cat = Catalog()
     traces = []
     for n in range(700 if quick else 5000):
-        h = domdriver.History(cat)
+        # a third of the histories use ONE DiffXDOMWriter / DiffXDOMReader for all their serialisations and loads
+        # (both classes are documented as reusable)
+        h = domdriver.History(cat, shared_reader=(n % 3 == 0), shared_writer=(n % 3 == 0))
         tid = domgen.build_tree(h, rng, via_attrs=rng.random() < 0.5)
         if rng.random() < 0.4:
             # observe the half-built tree (serialise / compare / iterate), then keep building
